@@ -1620,6 +1620,43 @@ fn main() {
                     let what = oracle_value(&cc, &oo, &spec).unwrap_or(what);
                     rep.oracle_failure(oracle_key(&cc), &cc.encode(&spec), &canon(&oo, &spec), &what);
                 }
+                // the proved error bound, evaluated by the driver in exact arithmetic on the real output
+                // (theorem c19_bound_check_sound): one request per converted observation
+                if matches!(c.shape, Shape::With | Shape::WithOpt | Shape::OptWith)
+                    && c.src != SrcKind::Dur
+                    && !c.elems.iter().any(|e| !is_honest(e, c.from))
+                {
+                    if let Written::Metric { obs, .. } = &out.written {
+                        let inputs: Vec<Observation> = c.elems.iter().flat_map(|e| e.observations()).collect();
+                        if inputs.len() == obs.len() {
+                            for (i, o) in inputs.iter().zip(obs.iter()) {
+                                let (iv, io, ik) = obs_value(i);
+                                let (ov, oo, ok) = obs_value(o);
+                                if io != oo || (ik == 2) != (ok == 2) {
+                                    continue; // the oracle has reported it
+                                }
+                                let want = if !iv.is_finite() {
+                                    "range"
+                                } else if ok == 0 {
+                                    "ok"
+                                } else if ov.is_normal() {
+                                    "ok"
+                                } else {
+                                    "range"
+                                };
+                                rep.bump(&format!("bound:{want}"));
+                                requests.push(format!(
+                                    "bound {} {} {} {}",
+                                    spec.tags[c.from].rust,
+                                    spec.tags[c.to].rust,
+                                    enc_obs(i),
+                                    enc_obs(o)
+                                ));
+                                expected.push(("units/bound".into(), enc.clone(), want.to_string()));
+                            }
+                        }
+                    }
+                }
                 requests.push(c.request(&spec));
                 expected.push((format!("units/{}", shape_name(c.shape)), enc, canon(&out, &spec)));
                 let _ = &mut failed_components;
